@@ -24,6 +24,8 @@ def main(tier):
     n = 0
     try:
         def mkscalar(qsel, v):
+            if qsel == "pure":
+                return Scalar(v, "-")
             if qsel == "simple":
                 return Scalar(v, "m")
             if qsel == "derived":
@@ -35,6 +37,8 @@ def main(tier):
             if kind == "intarray":
                 cont = numpy.array([int(v) for v in vs])
             one = {"list": [1.0] * len(vs), "tuple": (1.0,) * len(vs), "ndarray": numpy.ones(len(vs)), "intarray": numpy.ones(len(vs))}[kind]
+            if qsel == "pure":
+                return Array(cont, "-")
             if qsel == "simple":
                 return Array(cont, "m")
             if qsel == "derived":
